@@ -66,7 +66,7 @@ def run(tier, seed, t0):
         "distinct_interleavings_observed": (m.bins.get("distinct_interleavings", 0), 40 * big),
         "division_rounds": (m.bins.get("cases@division/plain", 0), 20 * big), "successful_divisions": (m.bins.get("successful_divisions", 0), 30 * big),
         "exception_cases": (m.bins.get("cases@exception/plain", 0), 36 * big),
-        "exception_handler_cases": (m.bins.get("exception_kind:parallel_exception_handler", 0), 10 * big), "refine_meshes_cases": (m.bins.get("exception_kind:refine_meshes", 0), 10 * big), "mesh_writer_cases": (m.bins.get("exception_kind:mesh_writer", 0), 10 * big), "runs_with_a_vanishing_cell": (m.bins.get("exception_kind:run_with_a_vanishing_cell", 0), 10 * big),
+        "exception_handler_cases": (m.bins.get("exception_kind:parallel_exception_handler", 0), 10 * big), "refine_meshes_cases": (m.bins.get("exception_kind:refine_meshes", 0), 10 * big), "mesh_writer_cases": (m.bins.get("exception_kind:mesh_writer", 0), 10 * big), "identity_tissues_with_a_very_large_cell": (m.bins.get("identity_runs_with_a_very_large_cell", 0), 2 * big), "runs_with_a_vanishing_cell": (m.bins.get("exception_kind:run_with_a_vanishing_cell", 0), 10 * big),
         "tsan_cases": (sum(v for k, v in m.bins.items() if k.startswith("cases@") and k.endswith("/tsan")), 19 * big),
     }
     return R.finish(ID, tier, seed, m,
